@@ -102,12 +102,17 @@ def configs(ctx):
         # (c) flattening of rank tuples of one tensor, optionally + occupancy of the flattened rank
         for t in decl:
             tr = decl[t]
-            tuples = [p for n in ((2,) if (quick and tag == "EW3") else (2, 3)) for p in itertools.permutations(tr, n)]
+            tuples = [p for n in (2, 3) for p in itertools.permutations(tr, n)]
+            if quick and tag == "EW3":
+                tuples = [p for p in tuples if len(p) == 2 or p in (tuple(tr), tuple(tr[::-1]))]
             for tup in tuples:
                 flat = "".join(tup)
                 others = [[x] for x in ranks if x not in tup]
                 key = "(%s)" % ", ".join(tup)
-                add({key: ["flatten()"]}, [[flat]] + others, list(tup), "flat:%s@%s" % (flat, t))
+                need_ = list(tup) if not (tag == "EW3" and len(tup) == 3) else list(tup[:2])
+                add({key: ["flatten()"]}, [[flat]] + others, need_, "flat:%s@%s" % (flat, t))
+                if tag == "EW3" and len(tup) == 3:
+                    continue
                 for L in B.read_tensors(expr):
                     if not set(tup) <= set(decl[L]):
                         continue
@@ -128,6 +133,18 @@ def configs(ctx):
                     add({x: ["uniform_shape(2)"], key: ["flatten()"]}, [[x + "1", flat]] + others, [x, y], "lvlflat:%s@%s" % (flat, t))
                     add({x: ["uniform_shape(2)"], key: ["flatten()"], flat: [occ(t, 2)]},
                         [[x + "1", flat + "1", flat + "0"]] + others, [x, y], "lvlflat+occ:%s@%s" % (flat, t))
+                    # the bottom level of a TWO-level occupancy split flattened with another rank
+                    if tup[0] == y:
+                        add({x: [occ(t, 2), occ(t, 1)], key: ["flatten()"]}, [[x + "2", x + "1", flat]] + others, [x, y],
+                            "occ2flat:%s@%s" % (flat, t))
+    from mc.spec.build import E as E_, T as T_, times as times_
+    d4 = {"A": ["M", "N", "P", "Q"], "B": ["M", "N", "P", "Q"], "Z": ["M", "N", "P", "Q"]}
+    e4 = E_("Z", ["m", "n", "p", "q"], times_(T_("A", "m", "n", "p", "q"), T_("B", "m", "n", "p", "q")))
+    for part, ext in (({"(M, N)": ["flatten()"], "(P, Q)": ["flatten()"]}, {"M": 2, "N": 1, "P": 2, "Q": 1}),
+                      ({"(M, P)": ["flatten()"], "(N, Q)": ["flatten()"]}, {"M": 2, "N": 1, "P": 2, "Q": 1}),
+                      ({"M": ["uniform_shape(2)"], "(P, Q)": ["flatten()"]}, {"M": 3, "N": 1, "P": 2, "Q": 1})):
+        work.append({"tag": "EW4/flat2:" + "+".join(part), "spec": {"decl": d4, "exprs": [e4], "mapping": {"partitioning": {"Z": part}}},
+                     "extents": [ext], "allowed_rejects": STATED_REJECTS})
     # identical (Einsum, mapping, sizes) generated through different tensors: keep one
     seen, uniq = set(), []
     for w in work:
